@@ -415,12 +415,19 @@ func (m *Machine) callBuiltin(th *Thread, name string, args []Value, caller *Fra
 			if v.slen != nil {
 				m.unsupported("clear of a lazily sized slice")
 			}
-			at, ok := v.arr.typ.Underlying().(*types.Array)
-			if !ok {
-				m.unsupported("clear: backing object of type %s", v.arr.typ)
+			var elem types.Type
+			if v.arr.typ != nil {
+				if at, ok := v.arr.typ.Underlying().(*types.Array); ok {
+					elem = at.Elem()
+				}
 			}
 			for i := 0; i < v.len; i++ {
-				m.store(&Ptr{obj: v.arr, path: []int{v.off + i}}, zeroValue(at.Elem()))
+				p := &Ptr{obj: v.arr, path: []int{v.off + i}}
+				if elem != nil {
+					m.store(p, zeroValue(elem))
+				} else {
+					m.store(p, zeroLike(m.load(p)))
+				}
 			}
 			return nil
 		}
